@@ -15,6 +15,7 @@
 
 #include <pugixml.hpp>
 
+#include <algorithm>
 #include <string>
 #include <string_view>
 #include <optional>
@@ -30,11 +31,8 @@ class schema_parser
 public:
     schema_parser(
         const std::string& path, ireporter& reporter, ifs_provider& fs_provider)
-        : reporter{&reporter}, fs_provider{&fs_provider}
+        : schema_parser{path, reporter, fs_provider, {path}}
     {
-        const auto file_data = this->fs_provider->read_file(path);
-        locations = location_manager{path, file_data};
-        parse_xml(file_data);
     }
 
     void parse_schema()
@@ -56,8 +54,25 @@ public:
     }
 
 private:
+    // `include_chain` is the list of files being parsed at the moment, from the
+    // main schema file to `path`, used to detect cyclic includes
+    schema_parser(
+        const std::string& path,
+        ireporter& reporter,
+        ifs_provider& fs_provider,
+        std::vector<std::string> include_chain)
+        : reporter{&reporter},
+          fs_provider{&fs_provider},
+          include_chain{std::move(include_chain)}
+    {
+        const auto file_data = this->fs_provider->read_file(path);
+        locations = location_manager{path, file_data};
+        parse_xml(file_data);
+    }
+
     ireporter* reporter;
     ifs_provider* fs_provider;
+    std::vector<std::string> include_chain;
     location_manager locations;
     pugi::xml_document xml_doc;
     sbe::message_schema message_schema;
@@ -135,7 +150,20 @@ private:
     void parse_include(const pugi::xml_node root)
     {
         const auto path = get_required_non_empty_string(root, "href");
-        auto parser = schema_parser{path, *reporter, *fs_provider};
+        if(std::find(
+               std::begin(include_chain), std::end(include_chain), path)
+           != std::end(include_chain))
+        {
+            throw_error(
+                "{}: cyclic include of `{}`",
+                locations.find(root.offset_debug()),
+                path);
+        }
+
+        auto nested_chain = include_chain;
+        nested_chain.push_back(path);
+        auto parser = schema_parser{
+            path, *reporter, *fs_provider, std::move(nested_chain)};
         parser.parse_schema_content();
 
         const auto& schema = parser.get_message_schema();
